@@ -330,6 +330,33 @@ impl<'t> Gen<'t> {
         false
     }
 
+    fn can_be_cut_at(&self, b: Bid) -> bool {
+        matches!(self.prog.binders[b].k, K::S(t, _) if t != Tag::Uri) || self.prog.binders[b].k == K::Ranges
+    }
+
+    /// A path from `from` to `to` on which no declaration could be cut at (both ends included):
+    /// closing it gives a cycle that is certainly ill-formed.
+    fn reaches_without_cut(&self, from: Bid, to: Bid) -> bool {
+        if self.can_be_cut_at(from) || self.can_be_cut_at(to) {
+            return false;
+        }
+        let mut seen = BTreeSet::new();
+        let mut stack = vec![from];
+        while let Some(x) = stack.pop() {
+            if x == to {
+                return true;
+            }
+            if seen.insert(x) {
+                for (_, b) in self.edges.range((x, 0)..(x + 1, 0)) {
+                    if !self.can_be_cut_at(*b) {
+                        stack.push(*b);
+                    }
+                }
+            }
+        }
+        false
+    }
+
     /// Whether mentioning declaration `b` here keeps every cycle cut at a schema declaration.
     fn cycle_ok(&mut self, b: Bid, at_head: bool) -> bool {
         let Some(cur) = self.cur.as_ref().map(|p| p.id) else { return true };
@@ -347,7 +374,7 @@ impl<'t> Gen<'t> {
         // A cycle with nothing to cut at: only through declarations that can never be cut at
         // (functions, contents, properties, transfers, URIs), so that the verdict does not depend
         // on what inference makes of a bare alias cycle.
-        if self.cfg.invalid_cycles && !referential && self.t.chance(1, 3) {
+        if self.cfg.invalid_cycles && !referential && self.reaches_without_cut(b, cur) && self.t.chance(1, 2) {
             self.labels.insert("invalid-cycle");
             return true;
         }
